@@ -28,11 +28,12 @@ func puMemo(k puK) puK {
 
 type puLoop struct {
 	brk, cont puK
+	ret       func(vals []string) string // return from inside the loop (range loops only)
 }
 
 func puHasBind(lines []string) bool {
 	for _, l := range lines {
-		if strings.Contains(l, ">>=") {
+		if strings.Contains(l, ">>=") || strings.Contains(l, "Go.bindS") || strings.Contains(l, "Go.bindT") {
 			return true
 		}
 	}
@@ -73,6 +74,9 @@ func puProj(t string, i, n int) string {
 }
 
 func (c *puFn) wrapOk(s string) string {
+	if c.stateful() {
+		return c.okText(s)
+	}
 	if c.monadic {
 		return ".ok " + s
 	}
@@ -128,6 +132,24 @@ func (c *puFn) assigned(nodes []ast.Node) []*types.Var {
 				if c.stdCall(x) == "encoding/binary.BigEndian.PutUint16" && len(x.Args) == 2 {
 					add(x.Args[0])
 				}
+				if f, _ := c.callee(x); f != nil && c.grp.g.rich && !f.t.extern {
+					fps := f.allParams()
+					for i, a := range x.Args {
+						if i < len(fps) && f.isState(fps[i]) {
+							add(a)
+						}
+					}
+				}
+				if l := c.libOf(x); l != nil {
+					if l.recvMut {
+						if sel, ok := x.Fun.(*ast.SelectorExpr); ok {
+							add(sel.X)
+						}
+					}
+					if l.inPlace >= 0 && l.inPlace < len(x.Args) {
+						add(x.Args[l.inPlace])
+					}
+				}
 			}
 			return true
 		})
@@ -153,6 +175,11 @@ func puJumps(stmts []ast.Stmt) bool {
 					walk(x.Body, true)
 					return false
 				}
+			case *ast.RangeStmt:
+				if m != n {
+					walk(x.Body, true)
+					return false
+				}
 			case *ast.FuncLit:
 				return false
 			}
@@ -172,7 +199,11 @@ func (c *puFn) block(stmts []ast.Stmt, k puK, lp *puLoop) ([]string, error) {
 		return k()
 	}
 	s, rest := stmts[0], stmts[1:]
-	next := puMemo(func() ([]string, error) { return c.block(rest, k, lp) })
+	next := c.memo(func() ([]string, error) { return c.block(rest, k, lp) })
+	c.curTop = s
+	if v, ok := c.guards[s]; ok && lp == nil {
+		return c.guardStmt(s.(*ast.IfStmt), v, next)
+	}
 	switch x := s.(type) {
 	case *ast.BlockStmt:
 		// declarations inside have their own Lean names, so the block can be flattened
@@ -180,13 +211,18 @@ func (c *puFn) block(stmts []ast.Stmt, k puK, lp *puLoop) ([]string, error) {
 	case *ast.EmptyStmt:
 		return next()
 	case *ast.ReturnStmt:
-		if lp != nil {
+		if lp != nil && lp.ret == nil {
 			return nil, c.errf(x, "return inside a loop")
 		}
 		if c.t.upto != "" {
 			return nil, c.errf(x, "return in the translated prefix (prefix mode)")
 		}
-		return c.ret(x)
+		return c.ret(x, lp)
+	case *ast.RangeStmt:
+		if !c.grp.g.rich {
+			return nil, c.errf(s, "statement %T outside the translated subset", s)
+		}
+		return c.rangeStmt(x, next, lp)
 	case *ast.BranchStmt:
 		if x.Label != nil || lp == nil {
 			return nil, c.errf(x, "%s outside the translated subset", x.Tok)
@@ -219,9 +255,33 @@ func (c *puFn) block(stmts []ast.Stmt, k puK, lp *puLoop) ([]string, error) {
 }
 
 // ret: a return statement
-func (c *puFn) ret(x *ast.ReturnStmt) ([]string, error) {
+func (c *puFn) ret(x *ast.ReturnStmt, lp *puLoop) ([]string, error) {
 	sig := c.obj.Type().(*types.Signature)
 	var vals []string
+	finish := func(lines []string, vals []string) ([]string, error) {
+		if lp != nil {
+			if c.mutRecv {
+				return nil, c.errf(x, "return inside a loop of a receiver-mutating method")
+			}
+			return append(lines, lp.ret(vals)), nil
+		}
+		return append(lines, c.retLine(vals)), nil
+	}
+	if len(x.Results) == 1 && sig.Results().Len() > 1 {
+		// return f(…) with a multi-valued f
+		call, ok := x.Results[0].(*ast.CallExpr)
+		if !ok {
+			return nil, c.errf(x, "return of a multi-valued expression")
+		}
+		lines, exprs, _, ok, err := c.callFx(call)
+		if err != nil {
+			return nil, err
+		}
+		if !ok || len(exprs) != sig.Results().Len() {
+			return nil, c.errf(x, "return of a multi-valued call")
+		}
+		return finish(lines, exprs)
+	}
 	if len(x.Results) == 0 {
 		for i := 0; i < sig.Results().Len(); i++ {
 			r := sig.Results().At(i)
@@ -234,7 +294,15 @@ func (c *puFn) ret(x *ast.ReturnStmt) ([]string, error) {
 		if len(x.Results) != sig.Results().Len() {
 			return nil, c.errf(x, "return of a multi-valued call")
 		}
-		for _, e := range x.Results {
+		for i, e := range x.Results {
+			if c.grp.g.rich && c.isNilIdent(e) {
+				z, err := c.zero(sig.Results().At(i).Type())
+				if err != nil {
+					return nil, c.errf(e, "%v", err)
+				}
+				vals = append(vals, z)
+				continue
+			}
 			if u, ok := e.(*ast.UnaryExpr); ok && u.Op == token.AND {
 				id, ok := u.X.(*ast.Ident)
 				if !ok {
@@ -244,7 +312,14 @@ func (c *puFn) ret(x *ast.ReturnStmt) ([]string, error) {
 				if v == nil || v == c.recv || c.isParam(v) || c.kindOf(v.Type()) != puStruct {
 					return nil, c.errf(e, "address of something that is not a local struct")
 				}
+				if c.grp.g.rich {
+					return nil, c.errf(e, "return &local in a group with pointers")
+				}
 				e = id
+			} else if c.grp.g.rich {
+				if err := c.checkPtrSource(e, true); err != nil {
+					return nil, err
+				}
 			}
 			s, err := c.expr(e)
 			if err != nil {
@@ -253,8 +328,7 @@ func (c *puFn) ret(x *ast.ReturnStmt) ([]string, error) {
 			vals = append(vals, s)
 		}
 	}
-	lines := c.takePre()
-	return append(lines, c.retLine(vals)), nil
+	return finish(c.takePre(), vals)
 }
 
 func (c *puFn) retLine(vals []string) string {
@@ -293,19 +367,46 @@ func (c *puFn) assignTo(lhs ast.Expr, val string) ([]string, error) {
 		if c.kindOf(v.Type()) == puBad {
 			return nil, c.errf(l, "variable %s of type %s", l.Name, v.Type())
 		}
-		if _, isPtr := v.Type().Underlying().(*types.Pointer); isPtr {
+		if _, isPtr := v.Type().Underlying().(*types.Pointer); isPtr && c.kindOf(v.Type()) != puPtr {
 			return nil, c.errf(l, "pointer variable %s", l.Name)
 		}
+		if c.bound[v] && c.kindOf(v.Type()) == puPtr {
+			return nil, c.errf(l, "assignment to a pointer parameter after its nil guard")
+		}
+		delete(c.fx.poison, v)
+		delete(c.fx.nonNil, v)
 		return []string{"let " + c.name(v) + " := " + val}, nil
 	case *ast.SelectorExpr:
 		id, ok := l.X.(*ast.Ident)
 		if !ok {
 			return nil, c.errf(l, "assignment to a nested field")
 		}
+		v, _ := c.pkg.info.ObjectOf(id).(*types.Var)
+		if v != nil && c.kindOf(v.Type()) == puPtr {
+			if sel, ok := c.pkg.info.Selections[l]; !ok || sel.Kind() != types.FieldVal || len(sel.Index()) != 1 {
+				return nil, c.errf(l, "selector %s outside the translated subset", c.text(l))
+			}
+			if _, err := c.leanType(c.pkg.info.Types[l].Type); err != nil {
+				return nil, c.errf(l, "%v", err)
+			}
+			// through a pointer variable: the object behind it (a state parameter, or a local that owns its object)
+			if c.isParam(v) && !c.isState(v) {
+				return nil, c.errf(l, "internal: write through a parameter that is not a state parameter")
+			}
+			n := c.name(v)
+			if c.bound[v] {
+				return []string{"let " + n + " := { " + n + " with " + puLeanIdent(l.Sel.Name) + " := " + val + " }"}, nil
+			}
+			t, err := c.derefVar(l, v)
+			if err != nil {
+				return nil, err
+			}
+			lines := c.takePre()
+			return append(lines, "let "+n+" := some { "+t+" with "+puLeanIdent(l.Sel.Name)+" := "+val+" }"), nil
+		}
 		if _, err := c.selector(l); err != nil {
 			return nil, err
 		}
-		v, _ := c.pkg.info.ObjectOf(id).(*types.Var)
 		if v == nil || (c.isParam(v) && v != c.recv) {
 			// a struct parameter is a copy: assigning its field is local, but nothing needs it
 			return nil, c.errf(l, "assignment to a field of a parameter")
@@ -410,15 +511,29 @@ func (c *puFn) simple(s ast.Stmt) ([]string, error) {
 					return nil, c.errf(id, "pointer variable")
 				}
 				var val string
+				nnInit := false
 				if len(vs.Values) == 0 {
 					if val, err = c.zero(v.Type()); err != nil {
 						return nil, c.errf(id, "%v", err)
 					}
-				} else if val, err = c.expr(vs.Values[i]); err != nil {
-					return nil, err
+				} else {
+					if c.grp.g.rich {
+						if err := c.checkPtrSource(vs.Values[i], false); err != nil {
+							return nil, err
+						}
+					}
+					nnInit = c.nonNilExpr(vs.Values[i])
+					if val, err = c.expr(vs.Values[i]); err != nil {
+						return nil, err
+					}
 				}
 				lines = append(lines, c.takePre()...)
 				lines = append(lines, "let "+c.name(v)+" : "+lt+" := "+val)
+				delete(c.fx.poison, v)
+				delete(c.fx.nonNil, v)
+				if nnInit {
+					c.fx.nonNil[v] = true
+				}
 			}
 		}
 		return lines, nil
@@ -477,6 +592,9 @@ func (c *puFn) simple(s ast.Stmt) ([]string, error) {
 			lines := c.takePre()
 			more, err := c.assignTo(call.Args[0], t)
 			return append(lines, more...), err
+		}
+		if lines, _, _, ok, err := c.callFx(call); ok || err != nil {
+			return lines, err
 		}
 		if f, rx := c.callee(call); f != nil {
 			return c.callStmt(call, f, rx, nil, false)
@@ -565,6 +683,9 @@ func (c *puFn) assign(x *ast.AssignStmt) ([]string, error) {
 		if !ok {
 			return nil, c.errf(x, "multi-valued right-hand side that is not a call")
 		}
+		if lines, ok, err := c.assignCall(call, x.Lhs); ok || err != nil {
+			return lines, err
+		}
 		if f, rx := c.callee(call); f != nil {
 			return c.callStmt(call, f, rx, x.Lhs, x.Tok == token.DEFINE)
 		}
@@ -635,6 +756,11 @@ func (c *puFn) assign(x *ast.AssignStmt) ([]string, error) {
 		}
 		return nil, nil
 	}
+	if c.grp.g.rich {
+		if lines, ok, err := c.richAssign(lhs, rhs); ok || err != nil {
+			return lines, err
+		}
+	}
 	// p = append(p, …)
 	if call, ok := rhs.(*ast.CallExpr); ok {
 		if id, ok := call.Fun.(*ast.Ident); ok && id.Name == "append" {
@@ -703,6 +829,7 @@ func (c *puFn) ifStmt(x *ast.IfStmt, next puK, lp *puLoop) ([]string, error) {
 		}
 		lines = append(lines, l...)
 	}
+	c.curTop = x.Cond
 	cond, err := c.expr(x.Cond)
 	if err != nil {
 		return nil, err
@@ -738,20 +865,27 @@ func (c *puFn) branch(cond string, a, b []ast.Stmt, next puK, lp *puLoop) ([]str
 			names[i] = c.name(v)
 		}
 		join := func() ([]string, error) { return []string{c.wrapOk(puTuple(names))}, nil }
+		fx0 := c.fx.clone()
 		la, err := c.block(a, join, nil)
 		if err != nil {
 			return nil, err
 		}
+		fxA := c.fx
+		c.fx = fx0
 		lb, err := c.block(b, join, nil)
 		if err != nil {
 			return nil, err
 		}
+		c.fx = puFxMeet(fxA, c.fx)
 		var lines []string
 		if len(vars) == 0 && len(la) == 1 && len(lb) == 1 {
 			// nothing that can fail and nothing assigned that outlives the branches: no effect
 			return next()
 		}
 		t := c.fresh()
+		if c.stateful() {
+			return c.statefulJoin(cond, la, lb, names, t, next)
+		}
 		// branches in which nothing can fail join as a value even inside a function that can fail
 		total := !c.monadic
 		if c.monadic && !puHasBind(la) && !puHasBind(lb) &&
@@ -783,10 +917,12 @@ func (c *puFn) branch(cond string, a, b []ast.Stmt, next puK, lp *puLoop) ([]str
 		}
 		return append(lines, r...), nil
 	}
+	fx0 := c.fx.clone()
 	la, err := c.block(a, next, lp)
 	if err != nil {
 		return nil, err
 	}
+	c.fx = fx0
 	lb, err := c.block(b, next, lp)
 	if err != nil {
 		return nil, err
@@ -799,6 +935,9 @@ func (c *puFn) branch(cond string, a, b []ast.Stmt, next puK, lp *puLoop) ([]str
 }
 
 func (c *puFn) switchStmt(x *ast.SwitchStmt, next puK, lp *puLoop) ([]string, error) {
+	if c.grp.g.rich {
+		return nil, c.errf(x, "switch in a group with pointers (not translated)")
+	}
 	if x.Init != nil {
 		return nil, c.errf(x, "switch with an init statement")
 	}
@@ -968,6 +1107,9 @@ func (c *puFn) chain(conds []string, bodies [][]ast.Stmt, deflt []ast.Stmt, k pu
 // ---------------------------------------------------------------------------------------------- for
 
 func (c *puFn) forStmt(x *ast.ForStmt, next puK, lp *puLoop) ([]string, error) {
+	if c.grp.g.rich {
+		return nil, c.errf(x, "counted loop in a group with pointers (not translated)")
+	}
 	if x.Init == nil || x.Cond == nil || x.Post == nil {
 		return nil, c.errf(x, "loop without init / condition / post statement (no visible bound)")
 	}
@@ -1141,12 +1283,21 @@ func (c *puFn) translate() (string, error) {
 	if c.usesExt {
 		params = append(params, "(E : Go.Ext)")
 	}
+	if c.usesLib {
+		params = append(params, "(L : Lib)")
+	}
+	if c.grp.g.rich {
+		c.guards = c.prologueGuards()
+		if err := c.checkRich(); err != nil {
+			return "", err
+		}
+	}
 	addParam := func(v *types.Var, i int, isRecv bool) error {
-		lt, err := c.leanType(v.Type())
+		lt, err := c.varLeanType(v)
 		if err != nil {
 			return c.errf(c.decl, "parameter %s: %v", v.Name(), err)
 		}
-		if _, isPtr := v.Type().Underlying().(*types.Pointer); isPtr && !isRecv {
+		if _, isPtr := v.Type().Underlying().(*types.Pointer); isPtr && !isRecv && c.kindOf(v.Type()) != puPtr {
 			return c.errf(c.decl, "pointer parameter %s", v.Name())
 		}
 		n := ""
@@ -1248,6 +1399,16 @@ func (c *puFn) translate() (string, error) {
 	}
 	if c.monadic {
 		rt = "Res " + rt
+	}
+	if c.stateful() {
+		if c.mutRecv {
+			return "", c.errf(c.decl, "receiver-mutating method with state parameters")
+		}
+		st, err := c.stateType()
+		if err != nil {
+			return "", c.errf(c.decl, "%v", err)
+		}
+		rt = st + " × " + rt
 	}
 	var b strings.Builder
 	for _, a := range c.aux {
